@@ -56,17 +56,21 @@ CheckStep(r, k, job, st) ==
                            IF k > 1 THEN "bytes_differ_from_library_after_earlier_conversions" ELSE "bytes_differ_from_library_composition")
                /\ Chk(exp.lang = "" \/ st.lang = exp.lang, r, k, "document_lang_not_applied")
 
+\* `tab` holds the enumerated job sets: TLC re-enumerates the (lazy) set expression AllJobs at every membership test
+\* otherwise (measured: 150 ms per step), a value stored in a state is enumerated once
+VARIABLES i, tab
+
 \* replay of the specification along the recorded history: h = spec history so far (job records; the job numbers of
 \* Cli!JobSeq are not used here because TLC's enumeration order of a set is not stable across runs)
 RECURSIVE Replay(_, _, _, _)
 Replay(r, rec, k, h) ==
   IF k > Len(rec.jobrecs) THEN TRUE
   ELSE LET job == rec.jobrecs[k] IN
-       /\ Chk(job \in AllJobs, r, k, "MACHINERY_job_binding")
+       /\ Chk(job \in tab.all, r, k, "MACHINERY_job_binding")
        \* the step must be enabled in the specification (Cli!Convert)
-       /\ Chk(h = <<>> \/ (Len(h) < MaxHist /\ h[1] \in HistJobs /\ job \in HistJobs), r, k, "MACHINERY_history_not_in_spec")
+       /\ Chk(h = <<>> \/ (Len(h) < MaxHist /\ h[1] \in tab.hist /\ job \in tab.hist), r, k, "MACHINERY_history_not_in_spec")
        /\ Chk(Len(rec.steps) >= k, r, k, "MACHINERY_step_missing")
-       /\ IF job \notin AllJobs \/ Len(rec.steps) < k THEN TRUE
+       /\ IF job \notin tab.all \/ Len(rec.steps) < k THEN TRUE
           ELSE /\ CheckStep(r, k, job, rec.steps[k])
                /\ Replay(r, rec, k + 1, Append(h, job))
 
@@ -78,11 +82,10 @@ CheckRec(j) ==
 
 B == 32
 Min2(a, b) == IF a < b THEN a ELSE b
-VARIABLE i
-TInit == i = 1 /\ globals = 0 /\ hist = <<>> /\ out = NoOut
+TInit == i = 1 /\ tab = [all |-> AllJobs, hist |-> HistJobs] /\ globals = 0 /\ hist = <<>> /\ out = NoOut
 TNext ==
   \/ /\ i <= Len(Recs)
      /\ (\A j \in i..Min2(i + B - 1, Len(Recs)) : CheckRec(j)) = TRUE       \* evaluated as an expression
-     /\ i' = Min2(i + B, Len(Recs) + 1) /\ UNCHANGED vars
-  \/ /\ i = Len(Recs) + 1 /\ PrintT(<<"DONE", Len(Recs)>>) /\ i' = i + 1 /\ UNCHANGED vars
+     /\ i' = Min2(i + B, Len(Recs) + 1) /\ UNCHANGED <<vars, tab>>
+  \/ /\ i = Len(Recs) + 1 /\ PrintT(<<"DONE", Len(Recs)>>) /\ i' = i + 1 /\ UNCHANGED <<vars, tab>>
 =============================================================================
